@@ -165,3 +165,39 @@ Example C07_ex_free_var_is_observed :
   call_closure 10 (RClos [] CaptureSemExamples.body1 []) [] CaptureSemExamples.st0
   = EFail (FUnbound x_) CaptureSemExamples.st0.
 Proof. vm_compute. reflexivity. Qed.
+
+(* ---------------------------------------------------------------------------------------------
+   The SOURCE-LEVEL statement, as a theorem on a decidable fragment (Compile/ClosFrag.v .. Compile/ClosTop.v):
+   closure programs -- function literals anywhere (factories whose every call creates fresh cells, closures created in
+   if / loop bodies over block-local variables, nesting of any depth), closures capture BY REFERENCE (the owner's later
+   assignments are seen; `modify` inside a closure writes through the captured cell, visible to the owner and to every
+   other closure over it), function values returned, stored, re-assigned, passed as arguments and called through
+   variables; statements: assignment, modify, print, expression statements, if, while, from (named fresh counter, step 1),
+   return.  For every such program the model compiler's code, run by the VM model, prints exactly the lines the reference
+   semantics (Lang/Eval.v: lexical scoping, capture by reference, modify writes the captured cell, plain assignment
+   declares a local) prescribes and ends the same way.  `in_fragment2` is a kind checker (data vs. function values) plus
+   a check that the code generator's output is what the simulation's code functions say; the C07 check evaluates the
+   extracted `in_fragment` (= in_fragment1 || in_fragment2) on every program it generates.
+   PARTIAL: outside the fragment (break / continue / else / op-assignment / assert / self-calls together with these
+   closure features, calls in from-loop bounds) the statement is established by the T1/T2/T3 correspondences only. *)
+From MS Require Import Compile.ClosFrag Compile.ClosRel Compile.ClosSim Compile.ClosTop Compile.StmtSim Compile.StmtFragB Compile.StmtExamples Compile.ClosExamples.
+Check closure_module_correct.
+Theorem C07_closure_programs_correct_partial : forall (path : str) (p : source), in_fragment2 path p = true ->
+  forall fuel : nat, snd (run fuel p) <> ROFuel ->
+  no_claim (snd (run fuel p)) \/
+  (exists fuel' : nat,
+     fst (fst (execute fuel' (cprogram path p) (s_module_fn path))) = fst (run fuel p) /\
+     vm_outcome_ok (snd (run fuel p)) (snd (fst (execute fuel' (cprogram path p) (s_module_fn path))))).
+Proof. exact closure_module_correct. Qed.
+Print Assumptions C07_closure_programs_correct_partial.
+(* every call: ANY closure related to a VM function value (whatever created it, wherever it was stored or passed) does
+   what call_clos does; related cells hold related values afterwards (writes through captured cells included) *)
+Check call_sim_all.
+(* the code generator (Compile/Compile.v) computes the code functions of the simulation on the fragment *)
+Check comp_both.
+(* non-vacuity: an owner variable with a reader and a writer closure, a factory instantiated twice (each instance its
+   own cell, shared by two closures), depth-3 nesting with modify from the innermost function, a closure created in a
+   loop body and kept, a closure passed as an argument: inside the fragment, VM == reference semantics, 8 lines *)
+Check C07_nv_closure_program.
+Example C07_nv_in_fragment : in_fragment2 nvp nv_c07 = true /\ in_fragment nvp nv_c07 = true.
+Proof. vm_compute. split; reflexivity. Qed.
